@@ -419,7 +419,7 @@ def repeatSeq (mk : List V → V) (xs : List V) (n : V) (tuple : Bool) : Except 
   match asUsize n with
   | none => bad
   | some n =>
-    if xs.length * n ≤ 100000000 ∧ (!tuple ∨ xs.length * n * 24 ≤ 100000000) then
+    if xs.length * n ≤ MJ.Gen.maxRepeatedStringLen ∧ (!tuple ∨ xs.length * n * 24 ≤ MJ.Gen.maxRepeatedStringLen) then
       .ok (mk (if xs.isEmpty then [] else repeatList xs n))
     else bad
 
@@ -428,7 +428,7 @@ def mul (a b : V) : Except Err V :=
   | .str s, n | n, .str s =>
     match asUsize n with
     | none => bad
-    | some n => if s.utf8ByteSize * n ≤ 100000000 then .ok (.str (String.join (List.replicate n s))) else bad
+    | some n => if s.utf8ByteSize * n ≤ MJ.Gen.maxRepeatedStringLen then .ok (.str (String.join (List.replicate n s))) else bad
   | .list xs, n | n, .list xs => repeatSeq .list xs n false
   | .tuple xs, n | n, .tuple xs => repeatSeq .tuple xs n true
   | a, b => match coerce a b with
@@ -497,9 +497,13 @@ def cmpFl : Fl → Fl → Option Ordering
 def totalKey (bits : Nat) : Int :=
   if bits < signBit then (bits : Int) else -((bits - signBit : Nat) : Int) - 1
 
-def kindRank : V → Nat
-  | .undef | .silent => 0 | .none => 1 | .bool _ => 2 | .int _ | .float _ => 3 | .str _ => 4
-  | .list _ | .tuple _ => 6 | .map _ => 7 | .other _ => 9
+/-- `Value::kind`, with iterables in the slot of sequences (`cmp_kind`) -/
+def kindName : V → String
+  | .undef | .silent => "Undefined" | .none => "None" | .bool _ => "Bool" | .int _ | .float _ => "Number"
+  | .str _ => "String" | .list _ | .tuple _ => "Seq" | .map _ => "Map" | .other _ => "Plain"
+
+/-- the position of the kind in `enum ValueKind` (derive(Ord)), as declared in the source -/
+def kindRank (v : V) : Nat := MJ.Gen.valueKindOrder.idxOf (kindName v)
 
 def cmpStr (a b : String) : Ordering := if a < b then .lt else if a = b then .eq else .gt
 
